@@ -289,6 +289,39 @@ def r11c(run):
     run.floor("R11c", "policy-guarded conversions", len(ss), 8)
 
 
+def r11d(run):
+    """an excluded field value falls back to what the field would have without the key: its default"""
+    f = run.repo.func("utype.parser.field", "ParserField.parse_value")
+    fa = analysis(f)
+    rets = []
+    for n in fa.cfg.nodes:
+        if n.kind == "stmt" and isinstance(n.ast, ast.Return) and fa.cfg.is_live(n):
+            for a, p in fa.facts.atoms_at(n):
+                pol = policy_of_test(fa, n, a)
+                if pol and pol[1] == "EXCLUDE" and p:
+                    rets.append(n)
+    # also: paths of the EXCLUDE branch that leave it without returning
+    tests = [m for m in fa.cfg.nodes if m.kind == "test" and policy_of_test(fa, m, m.ast) and policy_of_test(fa, m, m.ast)[1] == "EXCLUDE"]
+    run.floor("R11d", "EXCLUDE tests in parse_value", len(tests), 1)
+    for t in tests:
+        tb = [s_ for s_, k in t.succ if s_.kind == "branch" and s_.polarity]
+        body = fa.cfg.reach_from_succ(tb[0], kinds=(N,)) | {tb[0]} if tb else set()
+        exits = [m for m in body if m.kind == "stmt" and isinstance(m.ast, ast.Return)
+                 and any(policy_of_test(fa, m, a) and policy_of_test(fa, m, a)[1] == "EXCLUDE" and p for a, p in fa.facts.atoms_at(m))]
+        falls = [m for m in body if m.kind == "stmt" and isinstance(m.ast, ast.Return) and m not in exits]
+        ok = bool(exits) and all(isinstance(m.ast.value, ast.Call) and call_attr(m.ast.value) == "get_default" for m in exits) \
+            and not falls
+        run.check("R11d", f, "under EXCLUDE parse_value hands back the field's default (or the no-default sentinel)", ok,
+                  construct="excluded value does not fall back to the default",
+                  message="ParserField.parse_value: the EXCLUDE branch " + (
+                      "falls through to `" + norm_stmt(falls[0].ast) + "`" if falls else
+                      "returns " + ", ".join(sorted({unparse(m.ast.value)[:40] for m in exits})))
+                      + " instead of self.get_default(...)",
+                  necessity="the result of the exclude policy must equal strict parsing of the input with the offending "
+                            "key removed, i.e. the default; a caller-side fallback is missing in the data-first strategy, "
+                            "so the excluded field's default disappears there", node=t.ast)
+
+
 def r11b(run):
     f = run.repo.func("utype.parser.field", "ParserField.parse_value")
     fa = analysis(f)
@@ -311,7 +344,7 @@ def r11b(run):
 
 
 def check(run):
-    run.rules_run += ["R11a", "R11b", "R11c", "R04c"]
+    run.rules_run += ["R11a", "R11b", "R11c", "R11d", "R04c"]
     run.explain("C11: every catch-all handler around a conversion that consults an exclude/preserve policy (directly or "
                 "through a local bound to get_on_error / on_error) is partitioned by the policy literal: EXCLUDE warns, "
                 "never raises, and no store of the element / no value return is reachable; PRESERVE warns, never raises, "
@@ -321,4 +354,5 @@ def check(run):
     r11a(run)
     r11b(run)
     r11c(run)
+    r11d(run)
     c04.r04c(run)
